@@ -32,6 +32,9 @@ func runC04(c *Ctx) {
 	// behind differs from the source in size or mtime, and the differ must see
 	// that whatever content comparison is configured (shared with C02)
 	r02_1(c, "R04.12")
+	// a failing exit of the walker feeding the diff wakes whoever is parked on
+	// its queue (shared with C08)
+	r08_4(c, "R04.13")
 }
 
 // transferFuncs: non-test functions of packages fsutil and copy.
@@ -857,6 +860,7 @@ func r04_10(c *Ctx, rule string) {
 			}
 			return false
 		}
+		preCells := append([]ssa.Value(nil), cells...) // before the derivation every cell holds the parent
 		var kept []ssa.Value
 		for _, v := range cells {
 			if _, isAlloc := v.(*ssa.Alloc); isAlloc && rebound(v) {
@@ -914,6 +918,40 @@ func r04_10(c *Ctx, rule string) {
 				}
 			}
 		}
+		// before the group context exists the parent context must not be handed
+		// to module code that keeps it (a writer, a walker): what that code
+		// starts or waits for would not see the group's cancellation
+		isParentVal := func(v ssa.Value) bool {
+			v = eng.Strip(v)
+			for _, cv := range preCells {
+				if v == cv {
+					return true
+				}
+				if u, ok := v.(*ssa.UnOp); ok && u.Op == token.MUL && u.X == cv {
+					return true
+				}
+			}
+			if v == parent {
+				return true
+			}
+			return false
+		}
+		eng.InstrsShallow(fn, func(in ssa.Instruction) {
+			call, ok := in.(ssa.CallInstruction)
+			if !ok || in == ssa.Instruction(wc) || eng.Dominates(wc, in) {
+				return
+			}
+			callee := call.Common().StaticCallee()
+			if callee == nil || !c.P.InModule(callee) {
+				return
+			}
+			for _, a := range call.Common().Args {
+				if types.TypeString(a.Type(), nil) == "context.Context" && isParentVal(a) {
+					bad++
+					c.R.Fail(rule, fmt.Sprintf("%s/parent-context-use#%d", c.name(fn), bad), c.pos(in), "the parent context of "+c.name(fn)+" is handed to "+c.P.CalleeName(call)+" before the group context is derived: whatever that call sets up (writers, waits) does not see the group's cancellation when a sibling goroutine fails")
+				}
+			}
+		})
 		if bad == 0 {
 			c.R.OK(rule, c.name(fn)+"/group-context-only", c.pos(wc), "after deriving the group context the parent context is not used again")
 		}
